@@ -76,7 +76,7 @@ CHECKS.update({
    note='Trusted: the effect rules of vf/effects.py, determinism of numpy.random.Generator/random.Random/scipy given their state, Python name binding. Validity of the generated objects needs floating-point linear algebra and is bounded.' + BOUNDED_NOTE,
    tech='contract-based deductive verification: effect contracts (Det(seed)) checked per call site over the AST of the real source with signature resolution on the imported objects; dynamic replay of failures; run-time validity contracts as bounded stand-in'),
  'C15': dict(level='other', ref='DESIGN.md §7 C15',
-   text='Proved (exact polynomial / trigonometric-polynomial identities on the real code): su2_to_so3 is a homomorphism with R R^T = |U|^4 I, det = |U|^6, R(-U)=R(U); angle_to_su2 in SU(2); angle_to_so3 orthogonal with det 1 and equal to su2_to_so3 o angle_to_su2; get_su2_irrep built from angles is unitary for j2<=3 (5 thorough) and equals angle_to_su2 for j2=1. '
+   text='Proved (exact polynomial / trigonometric-polynomial identities on the real code): su2_to_so3 is a homomorphism with R R^T = |U|^4 I, det = |U|^6, R(-U)=R(U); angle_to_su2 in SU(2); angle_to_so3 orthogonal with det 1 and equal to su2_to_so3 o angle_to_su2; get_su2_irrep built from angles is unitary for j2<=3 (5 thorough) and equals angle_to_su2 for j2=1; so3_to_su2 and get_su2_irrep on matrix input are the angle routines applied to the extracted angles (delegation, recorder stubs). '
         'Bounded: angle extraction round trips on the quantifier grid including beta in {0,pi} exactly, gamma over both sheets (0,4pi), batches built to contain both poles and generic rotations; D(matrix) == D(angles) and D(U1U2)=D(U1)D(U2) on structured rotations (poles, z-rotations beyond 2pi) and random matrices, j2<=10; su(2) commutators, Clebsch-Gordan orthogonality/intertwining.',
    note=ALG_NOTE + ' arccos/arctan branch logic with thresholds is outside deduction: bounded.' + BOUNDED_NOTE,
    tech=TECH + 'trigonometric normal form (half-angle base pairs, c^2+s^2=1); run-time contracts on the Euler-angle grid as bounded stand-in'),
